@@ -126,6 +126,25 @@ func c03EvalForm(c *fw.Ctx, text string, safe bool, vals []poolVal) {
 // argument-list shapes, well-formed and not, for every function name
 var c03ArgShapes = []string{"F()", "F(1)", "F(1,)", "F(1,2)", "F(1,2,)", "F(,)", "F(,1)", "F(1,,2)", "F((1))", "F(1,(2,3))", "F(F(1,),2)", "1+F(2,)", "F(1,2,3,)", "F(a,)", "F(a,b,)[0]", "-F(1,)", "F(1,) IS NULL", "F(", "F(1", "F(1,", "F)"}
 
+// ... and every argument list of 1..8 ones with one position holding a list, a string or null, alone and as an operand
+func init() {
+	for n := 1; n <= 8; n++ {
+		for p := 0; p < n; p++ {
+			for _, bad := range []string{"[9]", "'x'", "null"} {
+				args := make([]string, n)
+				for k := range args {
+					args[k] = "1"
+				}
+				args[p] = bad
+				c03ArgShapes = append(c03ArgShapes, "F("+strings.Join(args, ",")+")")
+				if bad == "[9]" {
+					c03ArgShapes = append(c03ArgShapes, "F("+strings.Join(args, ",")+") IS NULL")
+				}
+			}
+		}
+	}
+}
+
 // (c) templates
 var c03TmplLexemes = []string{"{{", "}}", "{{{", "}}}", "#", "/", "^", "!", "if", "unless", "a", "b", " ", "x", "'"}
 var c03TmplChars = []rune("{}#/a '\U0001F600")
